@@ -164,8 +164,8 @@ func init() {
 	mmErrorVerbose = true
 }
 
-func yaccParseAny(src []byte, file *SourceFile, intern *stringIntern) (int, mmLexError) {
-	lexinfo := mmLexError{
+func yaccParseAny(src []byte, file *SourceFile, intern *stringIntern) (result int, lexinfo mmLexError) {
+	lexinfo = mmLexError{
 		info: mmLexInfo{
 			src: src,
 			pos: 0,
@@ -177,7 +177,19 @@ func yaccParseAny(src []byte, file *SourceFile, intern *stringIntern) (int, mmLe
 			intern: intern,
 		},
 	}
-	result := mmParse(&lexinfo.info)
+	defer func() {
+		// Numeric literals which the tokenizer accepts but which are out of
+		// range are reported like any other syntax error.
+		if r := recover(); r != nil {
+			if e, ok := r.(numParseError); ok {
+				result = 1
+				lexinfo.info.err = string(e)
+			} else {
+				panic(r)
+			}
+		}
+	}()
+	result = mmParse(&lexinfo.info)
 	if result == 0 {
 		lexinfo.info.global.comments = lexinfo.info.comments
 		lexinfo.info.global.comments = compileComments(
